@@ -138,9 +138,23 @@ def _random_traces(arg: tuple[int, int]) -> list[dict]:
 def main(tier: str, seed: int) -> int:
     v = Verdict(PROP, tier, seed, 'model_checking')
     fams = families(tier)
+    def prefer(h: list[dict]) -> int:
+        # behaviours in which a hyper-parameter changes (scheduler step,
+        # load, roll-back) BETWEEN a forward pass and the next training
+        # pass / step are the ones where "evaluated at the current step"
+        # can go wrong; then more steps
+        acts = [x['act'] for x in h]
+        sc = 0
+        for i, a in enumerate(acts):
+            if a in ('sched', 'load', 'rollback') and i > 0 and \
+                    acts[i - 1] in ('train', 'eval', 'fwdonly') and \
+                    any(b in ('train', 'step') for b in acts[i + 1:]):
+                sc += 3
+        return sc + acts.count('step')
+
     agg = reffam.run_families(
         fams, seed, max_replay=220 if tier == 'quick' else 6000,
-        nseeds=1 if tier == 'quick' else 2)
+        nseeds=1 if tier == 'quick' else 2, prefer=prefer)
     reffam.report(v, agg, fams, CATS)
     # ---- direction B: traces of drivers that know nothing about the
     # specification (the repository's own training loop, random API drivers
